@@ -321,4 +321,88 @@ theorem mapM2_of_pointwise (g : V → R (UInt16 × V)) (hpure : ∀ x l y, g x =
         exact ⟨g', hg⟩)
       exact mapM2_cons_of_ok _ _ _ _ _ _ _ h0 ih'
 
+/-- every result of a MarshalBinary() loop is the encoding of one of the children -/
+theorem mapM2_mem_bytes (f : V → R (Bytes × V)) : ∀ (xs : List V) (bss : List Bytes) (ys : List V),
+    mapM2 f xs = .ok (bss, ys) → ∀ b ∈ bss, ∃ x ∈ xs, ∃ y, f x = .ok (b, y) := by
+  intro xs
+  induction xs with
+  | nil => intro bss ys h; simp [mapM2] at h; obtain ⟨rfl, _⟩ := h; simp
+  | cons x xs ih =>
+    intro bss ys h
+    obtain ⟨b, y, bss', ys', e1, e2, rfl, rfl⟩ := mapM2_cons_ok _ _ _ _ _ h
+    intro c hc
+    simp only [List.mem_cons] at hc
+    rcases hc with rfl | hc
+    · exact ⟨x, by simp, y, e1⟩
+    · obtain ⟨w, hw, z, hz⟩ := ih bss' ys' e2 c hc
+      exact ⟨w, by simp [hw], z, hz⟩
+
+theorem length_le_flatten (bss : List Bytes) (b : Bytes) (hb : b ∈ bss) : b.length ≤ bss.flatten.length := by
+  induction bss with
+  | nil => simp at hb
+  | cons c cs ih =>
+    simp only [List.mem_cons] at hb
+    simp only [List.flatten_cons, List.length_append]
+    rcases hb with rfl | hb
+    · omega
+    · have := ih hb; omega
+
+/-! ### the nested-action loop of NXActionConnTrack -/
+
+/-- the loop encodes every nested action exactly once, in order -/
+theorem marshalActs_mapM2 (sub : V → R (Bytes × V)) : ∀ (acts : List V) (buf : Bytes) (n : Nat) (buf' : Bytes) (acts' : List V),
+    NXActionConnTrack.marshalActs sub acts buf n = .ok (buf', acts') → ∃ bss, mapM2 sub acts = .ok (bss, acts') := by
+  intro acts
+  induction acts with
+  | nil =>
+    intro buf n buf' acts' h
+    simp only [NXActionConnTrack.marshalActs] at h
+    cases h; exact ⟨[], rfl⟩
+  | cons a as ih =>
+    intro buf n buf' acts' h
+    simp only [NXActionConnTrack.marshalActs] at h
+    obtain ⟨⟨ab, a'⟩, ha, h1⟩ := bind_ok_inv _ _ _ h
+    obtain ⟨b1, _, h2⟩ := bind_ok_inv _ _ _ h1
+    obtain ⟨⟨b2, as'⟩, hb2, h3⟩ := bind_ok_inv _ _ _ h2
+    obtain ⟨bss, hm⟩ := ih _ _ _ _ hb2
+    have e : acts' = a' :: as' := by cases h3; rfl
+    subst e
+    exact ⟨ab :: bss, mapM2_cons_of_ok _ _ _ _ _ _ _ ha hm⟩
+
+/-- when the encodings fit into the zeroed rest of the buffer, the loop leaves them there one after the other -/
+theorem marshalActs_exact (sub : V → R (Bytes × V)) : ∀ (acts : List V) (pre : Bytes) (k : Nat) (buf' : Bytes) (acts' : List V)
+    (bss : List Bytes), NXActionConnTrack.marshalActs sub acts (pre ++ zeros k) pre.length = .ok (buf', acts') →
+    mapM2 sub acts = .ok (bss, acts') → bss.flatten.length ≤ k →
+    buf' = pre ++ bss.flatten ++ zeros (k - bss.flatten.length) := by
+  intro acts
+  induction acts with
+  | nil =>
+    intro pre k buf' acts' bss h hm _
+    simp only [NXActionConnTrack.marshalActs] at h
+    simp [mapM2] at hm
+    obtain ⟨rfl, _⟩ := hm
+    cases h
+    simp
+  | cons a as ih =>
+    intro pre k buf' acts' bss h hm hfit
+    obtain ⟨b, a', bss', as', e1, e2, rfl, rfl⟩ := mapM2_cons_ok _ _ _ _ _ hm
+    simp only [NXActionConnTrack.marshalActs, e1, Res.bind_ok] at h
+    simp only [List.flatten_cons, List.length_append] at hfit
+    have hx : fillFrom (pre ++ zeros k) pre.length [pCopy b] = .ok (pre ++ b ++ zeros (k - b.length)) := by
+      have := fillFrom_exact pre [pCopy b] k (by intro p hp; simp [pCopy] at hp; subst hp; trivial)
+        (by simp [piecesLen, pCopy, Piece.adv]; omega)
+      simpa [piecesBytes, piecesLen, pCopy, Piece.bytes, Piece.adv] using this
+    rw [hx] at h
+    simp only [Res.bind_ok] at h
+    obtain ⟨⟨b2, as2⟩, hb2, h3⟩ := bind_ok_inv _ _ _ h
+    have e : buf' = b2 ∧ as' = as2 := by
+      simp only [Res.pure_eq, Res.ok.injEq, Prod.mk.injEq, List.cons.injEq, true_and] at h3
+      exact ⟨h3.1.symm, h3.2.symm⟩
+    obtain ⟨rfl, rfl⟩ := e
+    have hl : (pre ++ b).length = pre.length + b.length := by simp
+    rw [← hl] at hb2
+    have := ih (pre ++ b) (k - b.length) buf' as' bss' hb2 e2 (by omega)
+    rw [this]
+    simp only [List.flatten_cons, List.append_assoc, List.length_append, Nat.sub_sub]
+
 end OFV.Elem
